@@ -419,7 +419,8 @@ def run(mod, pid, tier, seed, procs, t0):
             except Exception as err:
                 raise HarnessError("render failed: {!r}".format(err))
     samples = samples[:12]
-    total = max(agg["evaluations"], 1)
+    # generator health is judged on the generated / enumerated cases (fuzzer executions carry no class labels)
+    total = max(agg["evaluations"] - (fuzz_info or {}).get("execs", 0), 1)
     health = {}
     bad_health = []
     for label, floor in getattr(mod, "HEALTH", {}).items():
